@@ -227,6 +227,8 @@ def worker(cfg):
             sc = None
             if cfg["scores"]:
                 sc = T.Tensor(np.array([[core.Real("w_%d_%d" % (b, p)) for p in range(L)] for b in range(B)], dtype=object), dtype="float32")
+                for v in sc.a.flat:
+                    ctx.assume(s_and(v >= -8, v <= 8))             # small magnitudes: a counterexample stays visible in float32
             rp = lambda m: dict(cfg, x=C.eval_chars(m, xc), scores=(C.eval_chars(m, sc.a) if sc is not None else None))
             try:
                 y = km.kmers(X, k, scores=sc)
@@ -301,7 +303,7 @@ def main(tier, seed):
     rep.functions = [ld.func_info("annotate", f) for f in ("count_annotations", "pairwise_annotations", "pairwise_annotations_spacing")] + [ld.func_info("kmers", "kmers")]
     cf = configs(tier)
     rep.bounds = {"annotation_rows": "1..%d, every field symbolic" % max(c.get("rows", 0) for c in cf), "examples": "<= 2", "annotation_types": "<= 3",
-                  "coordinates": "start in [0, 4], length in [1, 2]", "max_distance": "2..3", "kmers": sorted({(c["A"], c["L"], c["k"]) for c in cf if c["kind"] == "kmers"})}
+                  "coordinates": "start in [0, 4], length in [1, 2]", "max_distance": "2..3", "kmers": sorted({(c["A"], c["L"], c["k"]) for c in cf if c["kind"] == "kmers"}), "kmer scores": "symbolic reals in [-8, 8]"}
     rep.assumptions = ["tensor input form (tuple / DataFrame forms go through pandas, outside the model)", "counts stay far below dtype range; int64 result dtype requested",
                        "rows with equal start: either order of the pair is accepted only where the statement does not distinguish (symmetric / same type)"]
     rep.absorb(harness.run_configs("checks.C18", "worker", cf))
